@@ -110,6 +110,8 @@ type Group struct {
 	Ctl      Ctl                `json:"ctl"`
 	Accepted int                `json:"accepted"` // ghost: instant of the last cloud-accepted scale-up in this controller lifetime
 	Tries    int                `json:"tries"`    // provider's consecutive failed-fleet-cleanup counter
+	SeenCpu  int                `json:"seenCpu"`  // ghost: size of the first listed node at the last scan of this controller lifetime that listed nodes (0 = none)
+	SeenMem  int                `json:"seenMem"`
 }
 
 type State struct {
